@@ -38,6 +38,9 @@ CHECKS = {
     "C10": ("pbt-programs", "Hypothesis-generated pairs/triples of point units (library temperature units, prefixed forms, generated scale+origin units); permutation/repetition identity by static_assert; a validity predicate evaluated on constexpr conversions of 0,1,7 (long long, long double, unsigned) and cross-checked against exact model fractions",
             "Exploration with a validity oracle (any common point unit satisfying the statement is accepted), enumerated library grid plus random generated units.",
             "generated units use int64_t origins; parameters reduced until intermediates fit 58 bits", "4/C10"),
+    "C09": ("pbt-values", "generated (point unit pair, rep pair) instances incl. units with rational scale and origin; enumerated +-2^15 windows around 0 and around each origin plus rapidcheck draws vs the exact rational affine map (128-bit), gated by representability with a two-bit margin; comparisons, point differences and shifts vs exact positions; 17 negative compile probes with positive twins",
+            "Exploration: exact equality on millions of values per run for integral reps (explicit ulp tolerances for floating reps), enumerated negative probes for every operation without affine meaning.",
+            "assertions only where result and model intermediates are representable (the statement's proviso); comparison checks only on instances the policy model admits", "4/C09"),
 }
 ENGINES = [
     {"name": "pbt-programs", "path": "auverif/hyp.py", "kind_free_text": "Hypothesis-generated translation units judged by compiler verdict / static_assert / program output against an independent Python model",
